@@ -211,9 +211,12 @@ def run_shard(spec):
         with C.Workdir() as wd:
             for sch, names, tagmap, mod, nodes, rng in C.iter_py_schemas(spec, acc, wd):
                 w = W.Wire(sch)
-                if spec['kind'] == 'seq' and quick:
-                    # quick tier: a quarter of the sequence structs per shard is corrupted, all are compiled
-                    names = [n for i, n in enumerate(names) if i % 4 == spec['seed'] % 4]
+                if spec['kind'] == 'seq':
+                    # every sequence struct is compiled; a deterministic sample of them is corrupted (each type costs
+                    # ~150 decodes per value and byte order): 1/4 in the quick tier, 1/24 of the complete
+                    # length-3 enumeration (with wrappers) in the thorough tier
+                    k = 4 if quick else 24
+                    names = [n for i, n in enumerate(names) if i % k == spec['seed'] % k]
                 for n in names:
                     cost = static_cost(w, sch, n)
                     sub = None
